@@ -17,7 +17,7 @@ A8 = 'A8 toolchains: Verus compiles the extracted text with Rust 1.98.1, Kani wi
 PROPS = {
     'C18': dict(
         verus_units=['c18_xmlchar'],
-        kani_off=['c18'],
+        kani=['c18'],
         level='proof',
         trusted_base=TRUSTED_VERUS + TRUSTED_KANI,
         assumptions=[A1, A2 + ' (char::is_ascii_digit/lowercase/uppercase on the Verus side only; Kani executes them; str::contains(char) shim)', A6, A8],
